@@ -4,6 +4,7 @@ CONSTANTS FlawShallowListFreeze = FALSE
  FlawAppendSharesCapacity = FALSE
  FlawSortedAliasesOrdered = FALSE
  OnlyTargets = {}
+ DeepTargets = {}
  MaxMut = 2
  DeepVias = {"direct", "alias", "arg", "compr", "loop"}
  LastVias = {}
